@@ -220,6 +220,20 @@ func (m *Model) ruleBACKFILL(r *Results) {
 		return
 	}
 	sc := scans[0]
+	// the scanned values are queued and delivered later: they must be copies, not views into the
+	// driver's row buffer (sql.RawBytes is only valid until the next Next/Scan/Close)
+	for i, d := range sc.RawDests {
+		if mi, ok := d.(*ssa.MakeInterface); ok {
+			d = mi.X
+		}
+		t := d.Type()
+		if pt, ok := t.Underlying().(*types.Pointer); ok {
+			t = pt.Elem()
+		}
+		if isNamed(t, "database/sql", "RawBytes") {
+			r.bad(rule, fnName+" / scanned values are copies", pos, "column %d of the backfill row is scanned into a sql.RawBytes, which aliases the driver's buffer and is overwritten by the next row: queued events then carry another document's bytes", i+1)
+		}
+	}
 	for _, v := range s.Variants {
 		st := v.Stmt()
 		if st == nil || st.Kind != sqlp.SSelect || st.Select == nil {
